@@ -355,6 +355,11 @@ func Decrypt(priv *PrivateKey, data []byte, mode int) ([]byte, error) {
 	curve := priv.Curve
 	x := new(big.Int).SetBytes(data[:32])
 	y := new(big.Int).SetBytes(data[32:64])
+	// C1 must be a point of the curve (this also rejects (0,0)); the group
+	// arithmetic does not depend on b and would happily work on another curve.
+	if !curve.IsOnCurve(x, y) {
+		return nil, errors.New("Decrypt: C1 is not on the curve")
+	}
 	x2, y2 := curve.ScalarMult(x, y, priv.D.Bytes())
 	x2Buf := x2.Bytes()
 	y2Buf := y2.Bytes()
